@@ -124,7 +124,7 @@ func (ts TypeSpecifier) parent() TypeSpecifier {
 		return TypeSpecifier{FHIR, "uri"}
 	case "Duration", "MoneyQuantity", "Age", "Count", "Distance", "SimpleQuantity":
 		return TypeSpecifier{FHIR, "Quantity"}
-	case "Timing", "Dosage", "ElementDefinition":
+	case "Timing", "Dosage", "ElementDefinition", "MarketingStatus", "ProductShelfLife":
 		return TypeSpecifier{FHIR, "BackboneElement"}
 	case "Bundle", "Binary", "Parameters", "DomainResource":
 		return TypeSpecifier{FHIR, "Resource"}
